@@ -25,8 +25,15 @@ import ast
 from typing import Callable, Dict, List, Optional, Tuple
 
 from .absint import Ctx, Interp
-from .symenv import SymClient, _site
+from .symenv import READ_ONLY_METHODS, SymClient, _site
 from .util import assigned_value, ext_name
+
+
+BUDGET = 60000
+
+
+class PathBudget(Exception):
+    pass
 
 
 class Path:
@@ -47,6 +54,7 @@ class _PathClient(SymClient):
         super().__init__()
         self.P, self.assume, self.inline_pred = prog, assume, inline
         self.frozen = set(frozen)
+        self.steps = 0
 
     def should_inline(self, func, call, ctx):
         if func.cls is not None and func.cls.is_external:
@@ -55,6 +63,8 @@ class _PathClient(SymClient):
             return False
         if self.inline_pred is not None:
             return bool(self.inline_pred(func, call, ctx))
+        if isinstance(call, ast.Call) and isinstance(call.func, ast.Attribute) and call.func.attr in READ_ONLY_METHODS:
+            return False                             # a read-only accessor (field tables and the like): a leaf call
         return True
 
     @staticmethod
@@ -108,6 +118,9 @@ class _PathClient(SymClient):
 
     def on(self, kind, node, env, ver, user, ctx):
         ev, dec, rounds = self._user(user)
+        self.steps += 1
+        if self.steps > BUDGET:
+            raise PathBudget()
         add = None
         if kind in ("call", "construct", "proto_call") and isinstance(node, ast.Call):
             f = node.func
@@ -135,11 +148,24 @@ class _PathClient(SymClient):
             v = assigned_value(node)
             add = ("setitem", self.sym(node.value, env, ver, ctx), self.sym(node.slice, env, ver, ctx),
                    self.sym(v, env, ver, ctx) if v is not None else None)
-        elif kind == "store" and isinstance(node, ast.Name):
+        elif kind == "store" and isinstance(node, (ast.Name, ast.Tuple, ast.List)):
             p = getattr(node, "_parent", None)
+            first_name = node
+            if isinstance(node, (ast.Tuple, ast.List)):
+                names_ = [n for n in ast.walk(node) if isinstance(n, ast.Name)]
+                first_name = names_[0] if names_ else None
+            else:
+                # the names of a tuple target arrive one by one (for loops): the round is counted at the first of them
+                top = node
+                while isinstance(p, (ast.Tuple, ast.List)):
+                    top, p = p, getattr(p, "_parent", None)
+                firsts = [n for n in ast.walk(top) if isinstance(n, ast.Name)]
+                if firsts and firsts[0] is not node:
+                    p = None
             while isinstance(p, (ast.Tuple, ast.List)):
                 p = getattr(p, "_parent", None)
-            if isinstance(p, (ast.For, ast.comprehension)):
+            if isinstance(p, (ast.For, ast.comprehension)) and first_name is not None:
+                node = first_name
                 lid = p.lineno if isinstance(p, ast.For) else ("comp",) + _site(p.iter)
                 n_round = dict(rounds).get(lid, 0)
                 if n_round >= 1:
@@ -182,7 +208,12 @@ def summaries(prog, func, cls, assume: Optional[Callable] = None, inline: Option
     """(paths, unrecognised) of ``func`` run as a method of ``cls``; ``assume(term)`` may fix the outcome of a test"""
     cl = _PathClient(prog, assume, inline, frozen)
     it = Interp(prog, cl)
-    ex = it.run(func, {cl.init(((), (), ()))}, cls)
+    try:
+        ex = it.run(func, {cl.init(((), (), ()))}, cls)
+    except PathBudget:
+        return [], [f"{func.short}: more paths than the summary budget allows ({BUDGET} events)"]
+    if len(ex.ret) + len(ex.normal) + len(ex.exc) > 3000:
+        return [], [f"{func.short}: more than 3000 path ends"]
     out: List[Path] = []
     seen = set()
 
@@ -252,3 +283,63 @@ def show(t, depth=0) -> str:
     if k == "free":
         return t[1]
     return f"<{k}>"
+
+
+def elementwise(t):
+    """the element at one (symbolic) position of a sequence term, with `('at', X)` for the element of a base sequence X:
+    comprehensions, zip, enumerate, list/tuple copies and dict(zip(..)) are looked through, so that
+        {k: f(v) for k, v in zip(K, V)}      dict(zip(K, [f(v) for v in V]))      dict(zip(K, map(f, V)))
+    all read  (('at', K), ('apply', f, (('at', V),)))  -- a pair for mappings.  None when the term is not understood."""
+    def subst(x, lid):
+        if not isinstance(x, tuple) or not x:
+            return x
+        if x[0] == "elem" and len(x) == 3 and x[2] == lid:
+            inner = at(x[1])
+            return inner if inner is not None else ("at", x[1])
+        if x[0] == "idx" and len(x) == 2 and x[1] == lid:
+            return ("pos",)
+        return tuple(subst(y, lid) for y in x)
+
+    def at(x):
+        if not isinstance(x, tuple) or not x:
+            return None
+        if x[0] == "comp" and len(x) == 6:
+            kind, elts, it, conds, lid = x[1], x[2], x[3], x[4], x[5]
+            if conds:
+                return None
+            vals = tuple(subst(e, lid) for e in elts)
+            return ("tuple",) + vals if kind == "dict" else vals[0]
+        if x[0] == "call" and x[1] in ("list", "tuple", "iter") and len(x[2]) == 1:
+            return at(x[2][0]) or ("at", x[2][0])
+        if x[0] == "call" and x[1] == "zip":
+            return ("tuple",) + tuple(at(a) or ("at", a) for a in x[2])
+        if x[0] == "call" and x[1] == "enumerate" and len(x[2]) == 1:
+            return ("tuple", ("pos",), at(x[2][0]) or ("at", x[2][0]))
+        if x[0] == "call" and x[1] == "map" and len(x[2]) >= 2:
+            return ("apply", x[2][0], tuple(at(a) or ("at", a) for a in x[2][1:]))
+        if x[0] == "call" and x[1] == "dict" and len(x[2]) == 1:
+            return at(x[2][0])
+        if x[0] in ("attr", "mcall", "eff", "p", "sub", "free", "lv"):
+            return ("at", x)
+        return None
+    return at(t)
+
+
+def strip_versions(t):
+    """the term without heap-version stamps and call sites (for comparisons where no write can lie in between)"""
+    if not isinstance(t, tuple) or not t:
+        return t
+    k = t[0]
+    if k == "attr":
+        return ("attr", strip_versions(t[1]), t[2])
+    if k == "sub":
+        return ("sub", strip_versions(t[1]), strip_versions(t[2]))
+    if k == "call":
+        return ("call", t[1], tuple(strip_versions(a) for a in t[2]))
+    if k == "mcall":
+        return ("mcall", t[1], strip_versions(t[2]), tuple(strip_versions(a) for a in t[3]))
+    if k == "eff":
+        return ("eff", t[1], strip_versions(t[2]), tuple(strip_versions(a) for a in t[3]))
+    if k == "lv":
+        return ("lv", t[1])
+    return tuple(strip_versions(x) for x in t)
